@@ -39,7 +39,7 @@ ASSUMPTIONS = [
 ]
 PROFILE = {
     "quick": dict(examples=1600, shards=16, budget_s=80),
-    "thorough": dict(examples=6000, shards=16, budget_s=1100),
+    "thorough": dict(examples=12000, shards=16, budget_s=1100),
 }
 
 
